@@ -218,9 +218,11 @@ Full statement: "a blocked call completes AS SOON AS it becomes possible / retur
 PROMPTLY".  Proved above: the safety core — no lost wake-up, enabledness of the woken thread and of
 everybody it may wait for, enabledness of the ctx arm, wake-up of a timer waiter by time alone.
 Not expressible in this framework and therefore not proved: wall-clock promptness, scheduler
-fairness (that an enabled thread is eventually scheduled), accuracy of `time.Timer`.  A variant
-(`progress_measure`) for the woken thread is not proved either: a woken Dequeue may legitimately loop
-(another consumer took the element), so completion needs fairness between consumers.
+fairness (that an enabled thread is eventually scheduled), accuracy of `time.Timer`.  A woken Dequeue
+may legitimately loop (another consumer took the element), so completion under interference needs
+fairness between consumers; completion WITHOUT interference (the woken call runs to its return in a
+fixed number of its own steps, a futile wake-up re-parks on a fresh un-closed generation, one `close`
+wakes all waiters) is proved in Ekit/Props/C09bRev.lean.
 The theorem below packages what IS proved for the parked Dequeue under the name the design uses. -/
 theorem c09_delay_promptness_partial (P : Params) (s : State) (t g : Nat) (hr : (sys P).Reachable s)
     (hw : (s.pc t).waitsE = some g) :
